@@ -256,14 +256,18 @@ def St.clearObj (s : St) (c : CellId) : St :=
   let removed := (own.flatMap (fun a => s.descsWith a)).eraseDups
   ((s.removeNodes removed).rgRemoveReferred (elemsOf removed)).dropValues (elemsOf removed)
 
-/-- `TraceManager.clear_attr_referrers(ref)` -/
+/-- `TraceManager.clear_attr_referrers(ref)`: the readers of `r` leave the reference graph
+(`remove_with_descs(ref)`); each of them that still has a node is removed from the trace graph
+with its dependents, and - since the repair 87e96f6 - the edges that OTHER references have to
+those dependents leave the reference graph with them (`remove_with_referred(descs)`), before
+the values are dropped.  (Per reader this is what `clearWithDescs` does.) -/
 def St.clearAttrReferrers (s : St) (r : RefId) : St :=
   let readers := (s.rg.filter (fun e => e.1 == r)).map (·.2)
   let s1 := { s with rg := s.rg.filter (fun e => e.1 != r && !readers.contains e.2) }
   readers.foldl (fun s n =>
     if s.gn.contains (.elem n) then
       let removed := s.descsWith (.elem n)
-      (s.removeNodes removed).dropValues (elemsOf removed)
+      ((s.removeNodes removed).rgRemoveReferred (elemsOf removed)).dropValues (elemsOf removed)
     else s) s1
 
 inductive EditErr | noneNotAllowed
